@@ -592,7 +592,16 @@ class Disj:
         self.alts = alts   # list of lists of body items
 
     def rs(self, sc=None):
-        return '(%s)' % ' | '.join(', '.join(rs_item(i, sc) for i in alt) for alt in self.alts)
+        parts = []
+        for k, alt in enumerate(self.alts):
+            t = ', '.join(rs_item(i, sc) for i in alt)
+            last = alt[-1] if alt else None
+            ends_in_expr = isinstance(last, (If, Let, IfLet, For)) or (isinstance(last, Clause) and last.conds)
+            if ends_in_expr and k < len(self.alts) - 1:
+                # `... if c | next` would be read as the Rust expression `c | next`: close the alternative first
+                t = '(%s)' % t
+            parts.append(t)
+        return '(%s)' % ' | '.join(parts)
 
     def ren(self, m, relmap=None):
         return Disj([[ren_item(i, m, relmap) for i in alt] for alt in self.alts])
